@@ -400,16 +400,25 @@ impl TracingEventReceiver {
             None => None,
         };
 
-        let value_set = Self::generate_fields(metadata, &data.values);
-        let value_set = Self::expand_fields(&value_set);
-        let value_set = Self::create_values(metadata.fields(), &value_set);
+        let all_values = Self::generate_fields(metadata, &data.values);
+        let all_values = Self::expand_fields(&all_values);
+        // Values accumulated by a restored span may not fit into a single value set;
+        // the remaining ones are recorded right after the span is created.
+        let (values, more_values) =
+            all_values.split_at(all_values.len().min(Self::MAX_VALUES));
+        let value_set = Self::create_values(metadata.fields(), values);
         let attributes = if let Some(local_parent_id) = local_parent_id {
             Attributes::child_of(local_parent_id.clone(), metadata, &value_set)
         } else {
             Attributes::new(metadata, &value_set)
         };
 
-        Ok(Self::dispatch(|dispatch| dispatch.new_span(&attributes)))
+        let local_id = Self::dispatch(|dispatch| dispatch.new_span(&attributes));
+        for values in more_values.chunks(Self::MAX_VALUES) {
+            let values = Self::create_values(metadata.fields(), values);
+            Self::dispatch(|dispatch| dispatch.record(&local_id, &Record::new(&values)));
+        }
+        Ok(local_id)
     }
 
     /// Tries to consume an event and relays it to the tracing infrastructure.
